@@ -895,6 +895,8 @@ shape!(widen_mid, "shape=widen(12->32):", u64, [u64; 3], [u64; 3]);
 shape!(widen_large, "shape=widen(16->136):", u64, [u64; 16], [u64; 16]);
 shape!(narrow, "shape=narrow(136->4):", [u64; 16], (), ());
 shape!(to_heap, "shape=widen(&str-like->String):", u64, String, String);
+// conversions from a type with drop glue to one without
+shape!(drop_to_plain, "shape=String->plain:", String, (), u64);
 
 /// `subset`: only the shapes whose handling could go wrong at the memory level (drop glue, large moves,
 /// over-alignment) - what the Miri layer runs
@@ -905,6 +907,7 @@ fn cells(subset: bool) -> Vec<Cell15> {
     v.extend(boxed::cells());
     v.extend(aligned::cells());
     v.extend(to_heap::cells());
+    v.extend(drop_to_plain::cells());
     if !subset {
         v.extend(odd::cells());
         v.extend(big328::cells());
@@ -932,6 +935,7 @@ fn shape_sizes() -> Vec<(&'static str, usize, usize, [usize; 4])> {
         ("widen(16->136)", widen_large::sizes().0, widen_large::sizes().1, widen_large::conv_sizes()),
         ("narrow(136->4)", narrow::sizes().0, narrow::sizes().1, narrow::conv_sizes()),
         ("widen(->String)", to_heap::sizes().0, to_heap::sizes().1, to_heap::conv_sizes()),
+        ("String->plain", drop_to_plain::sizes().0, drop_to_plain::sizes().1, drop_to_plain::conv_sizes()),
     ]
 }
 
@@ -1089,7 +1093,7 @@ impl Monitor for C15 {
                         .set("align_of_Parsed<T,E>", J::u(align))
                         .set("size_of_T_U_E_E2", J::A(conv.iter().map(|&x| J::u(x)).collect())),
                 );
-                if !subset || ["unit", "[u64;16]", "String", "Box", "align64", "widen(->String)"].contains(&name) {
+                if !subset || ["unit", "[u64;16]", "String", "Box", "align64", "widen(->String)", "String->plain"].contains(&name) {
                     rep.inc("shapes");
                 }
             }
